@@ -36,8 +36,22 @@ class BaseBoom(BaseException):
     pass
 
 
+_INNER = []
+
+
+def _see_request(request):
+    from pyramid.threadlocal import get_current_request
+    _INNER.append(1 if get_current_request() is request else 0)
+
+
+def _see_registry(registry):
+    from pyramid.threadlocal import get_current_registry
+    _INNER.append(1 if get_current_registry() is registry else 0)
+
+
 def _observe(fn):
     from pyramid.threadlocal import manager
+    del _INNER[:]
     sentinel = [{'request': None, 'registry': None, 'c13': i} for i in range(2)]
     base = len(manager.stack)
     manager.stack.extend(sentinel)
@@ -54,7 +68,8 @@ def _observe(fn):
     common = 0
     while common < len(before) and common < len(after) and before[common] is after[common]:
         common += 1
-    return [kind, len(before) - common, len(after) - common]
+    inner = 2 if not _INNER else (1 if all(_INNER) else 0)
+    return [kind, len(before) - common, len(after) - common, inner]
 
 
 def _config(root_factory=None):
@@ -67,6 +82,7 @@ def _config(root_factory=None):
 
 def _rf(site):
     def root_factory(request):
+        _see_request(request)
         if site == 'root_factory':
             raise Boom()
         if site == 'root_factory_base':
@@ -91,16 +107,13 @@ def run_scope(name, site):
     if name in ('prepare', 'prepare_closer', 'prepare_with'):
         c = _config(_rf(site))
         if site == 'extensions':
-            def bad(request):
-                raise Boom()
-            c.add_request_method(bad, 'c13bad', property=True)   # harmless: evaluated lazily
             from pyramid.interfaces import IRequestExtensions
 
             class Ext:
                 descriptors = {}
-                methods = {}
 
-                def __getattr__(self, n):
+                @property
+                def methods(self):
                     raise Boom()
             c.commit()
             c.registry.registerUtility(Ext(), IRequestExtensions)
@@ -131,6 +144,7 @@ def run_scope(name, site):
         c = _config()
 
         def act():
+            _see_registry(c.registry)
             if site == 'action':
                 raise Boom()
         c.action(('c13', 1), act)
@@ -140,27 +154,27 @@ def run_scope(name, site):
         c = Configurator(autocommit=True)
 
         def act():
+            _see_registry(c.registry)
             if site == 'callable':
                 raise Boom()
         return _observe(lambda: c.action(('c13', 2), act))
     if name == 'cfg_include':
         c = _config()
 
-        def inc(config):
-            if site == 'callable':
-                raise Boom()
-        inc.__module__ = 'harness.c13.scopes'
+        _CUR['registry'] = c.registry
         return _observe(lambda: c.include(_includeme_raise if site == 'callable' else _includeme_ok))
     if name == 'cfg_make_wsgi_app':
         from pyramid.events import ApplicationCreated
         c = _config()
 
         def sub(ev):
+            _see_registry(c.registry)
             if site == 'subscriber':
                 raise Boom()
         c.add_subscriber(sub, ApplicationCreated)
 
         def act():
+            _see_registry(c.registry)
             if site == 'action':
                 raise Boom()
         c.action(('c13', 3), act)
@@ -170,6 +184,7 @@ def run_scope(name, site):
 
         def f():
             with c.route_prefix_context('p'):
+                _see_registry(c.registry)
                 if site == 'body':
                     raise Boom()
         return _observe(f)
@@ -179,9 +194,11 @@ def run_scope(name, site):
         def f():
             with Configurator() as c:
                 def act():
+                    _see_registry(c.registry)
                     if site == 'action':
                         raise Boom()
                 c.action(('c13', 4), act)
+                _see_registry(c.registry)
                 if site == 'body':
                     raise Boom()
         return _observe(f)
@@ -189,6 +206,7 @@ def run_scope(name, site):
         c = _config()
 
         def ev(exc, request):
+            _see_request(request)
             if site == 'view':
                 raise Boom()
             return Response('x')
@@ -208,6 +226,7 @@ def run_scope(name, site):
         c = _config()
 
         def v(request):
+            _see_request(request)
             if site == 'view':
                 raise Boom()
             return Response('x')
@@ -226,6 +245,7 @@ def run_scope(name, site):
             ctx = app.request_context(Request.blank('/').environ)
             ctx.begin()
             try:
+                _see_request(ctx.request)
                 if site == 'body':
                     raise Boom()
             finally:
@@ -234,9 +254,13 @@ def run_scope(name, site):
     raise KeyError(name)
 
 
+_CUR = {}
+
+
 def _includeme_ok(config):
-    pass
+    _see_registry(_CUR['registry'])
 
 
 def _includeme_raise(config):
+    _see_registry(_CUR['registry'])
     raise Boom()
